@@ -25,7 +25,7 @@ import pair as P
 PROP = 'C15'
 SSH_KEYGEN = shutil.which('ssh-keygen')
 OPENSSL = shutil.which('openssl')
-SCRATCH = '/dev/shm/asyncssh-verif-c15'
+SCRATCH = '/dev/shm/asyncssh-verif-c15-%d' % os.getpid()       # unique per check run (workers are forked later)
 
 KEYTYPES = [('ssh-rsa', {'key_size': 2048}), ('ssh-dss', {}), ('ecdsa-sha2-nistp256', {}), ('ecdsa-sha2-nistp384', {}),
             ('ecdsa-sha2-nistp521', {}), ('ssh-ed25519', {}), ('ssh-ed448', {})]
